@@ -39,14 +39,15 @@ func MonitorsFor(prop string) Monitors {
 }
 
 type runState struct {
-	r    *Runner
-	p    *Pools
-	mon  Monitors
-	out  *Outcome
-	prev *Dump
-	ld   uint64         // digest of the lookups since the previous observation
-	rep  int            // issue every lookup this many times (monitors see all of them)
-	prov map[string]int // which peer delivered each stored route (harness's own record)
+	r      *Runner
+	p      *Pools
+	mon    Monitors
+	out    *Outcome
+	prev   *Dump
+	ld     uint64          // digest of the lookups since the previous observation
+	rep    int             // issue every lookup this many times (monitors see all of them)
+	prov   map[string]int  // which peer delivered each stored route (harness's own record)
+	locals map[string]bool // local domain patterns / forward keys added and not yet removed (harness's own record)
 }
 
 func (s *runState) lookup(l Op) {
@@ -113,6 +114,10 @@ func (s *runState) do(op Op) {
 	if s.prov == nil {
 		s.prov = map[string]int{}
 	}
+	if s.locals == nil {
+		s.locals = map[string]bool{}
+	}
+	s.out.Fails = append(s.out.Fails, checkLocalRemoval(s.locals, s.prev, after, op, ret)...)
 	// the maintenance rules are evaluated in all three harnesses: every
 	// lookup property rests on the buckets being maintained correctly
 	s.out.Fails = append(s.out.Fails, CheckMaintenance(s.prev, after, op, ret, now, s.prov)...)
@@ -304,4 +309,57 @@ func CountLookups(c *vh.Ctx, o *Outcome) {
 		}
 		j++
 	}
+}
+
+// localBucket returns the table and bucket key a local domain pattern or
+// forward key is filed under.
+func localBucket(op Op) (table, key string) {
+	switch op.Code {
+	case OpDAddLocal, OpDRmLocal:
+		b := asciiTrim(op.Name)
+		if strings.HasPrefix(b, "*.") {
+			return "dwild", asciiLower(b[2:])
+		}
+		return "dexact", asciiLower(op.Name)
+	}
+	return "fwd", op.Name
+}
+
+// checkLocalRemoval: a locally announced domain pattern or forward key that
+// was added (and reported added) and has not been removed since can be
+// removed with the same spelling, and its locally originated route is gone
+// afterwards. locals is the harness's own record of what was added.
+func checkLocalRemoval(locals map[string]bool, before, after *Dump, op Op, ret uint64) []Failure {
+	id := fmt.Sprintf("%d|%s", op.Code/10, op.Name)
+	switch op.Code {
+	case OpDAddLocal, OpFAddLocal:
+		if ret == 1 {
+			locals[id] = true
+		}
+	case OpDRmLocal, OpFRmLocal:
+		if !locals[id] {
+			return nil
+		}
+		delete(locals, id)
+		table, key := localBucket(op)
+		had := false
+		for _, e := range before.All(table) {
+			if e.Key == key && e.Origin == 0 {
+				had = true
+			}
+		}
+		if !had {
+			return nil // the route itself was already taken out by a table-level removal or a disconnect of the local id
+		}
+		still := false
+		for _, e := range after.All(table) {
+			if e.Key == key && e.Origin == 0 {
+				still = true
+			}
+		}
+		if ret != 1 || still {
+			return []Failure{{"local-route-not-removable", fmt.Sprintf("local %q was added and not removed since, but removing it with the same spelling returned %d and its locally originated route is still stored=%v (it keeps winning lookups with its metric)", op.Name, ret, still)}}
+		}
+	}
+	return nil
 }
